@@ -50,12 +50,14 @@ def _pivot(mat, m, r, c, eps):
                 mat[i] = [a - f * p for a, p in zip(mat[i], mat[r])]
 
 
-def _phase2(mat, basis, m, eps, max_iter):
+def _phase2(mat, basis, m, eps, max_iter, note=None):
     ncols = len(mat[0])
     for it in range(max_iter):
         enter = -1
         bs = set(basis)
         for j in range(ncols - 1):
+            if note is not None and j not in bs:
+                note(mat[-1][j])
             if j not in bs and mat[-1][j] < -eps:
                 enter = j
                 break
@@ -77,7 +79,7 @@ def _phase2(mat, basis, m, eps, max_iter):
     return "MAX_ITER", max_iter
 
 
-def solve_lp(c, A, b, minimize, eps, max_iter, num=F):
+def solve_lp(c, A, b, minimize, eps, max_iter, num=F, fr=None):
     """-> (status, solution, objective, iterations).  num=F: exact; num=float: the same operations in doubles (used only to
     see where round-off noise appears)"""
     m, n = len(b), len(c)
@@ -132,7 +134,17 @@ def solve_lp(c, A, b, minimize, eps, max_iter, num=F):
                 if abs(cost) > eps:
                     mat[-1] = [a - cost * p for a, p in zip(mat[-1], mat[i])]
         max_iter -= iters
-    st, it2 = _phase2(mat, basis, m, eps, max(max_iter, 0))
+    note = None
+    if fr is not None:
+        # a reduced cost that is 0 (or within round-off of -eps) in exact arithmetic is noise of size ~ulp(max|c|) in doubles: at
+        # large cost magnitudes that noise exceeds eps and the float simplex may pivot on to another optimal vertex
+        cmax = max([abs(v) for v in w] + [0])
+        margin = F(1, 2**40) * cmax
+
+        def note(rc):
+            if abs(rc + eps) < margin:
+                fr.tie("simplex: reduced cost within double round-off of the entering threshold (cost magnitude)")
+    st, it2 = _phase2(mat, basis, m, eps, max(max_iter, 0), note)
     sol = [num(0)] * n
     for i in range(m):
         if basis[i] < n:
@@ -202,7 +214,7 @@ def solve_node(c, A, b, lower, upper, minimize, eps, max_iter, fr):
     c_red = [c[j] for j in free]
     fobj = sum((c[j] * fixed[j] for j in fixed), F(0))
     lp_eps = min(eps, F(1, 10**10))                     # commit cccee4d: solve_lp(..., eps=min(eps, 1e-10))
-    st, x, z, _ = solve_lp(c_red, A_red, b_red, minimize, lp_eps, max_iter)
+    st, x, z, _ = solve_lp(c_red, A_red, b_red, minimize, lp_eps, max_iter, fr=fr)
     fr.last_float_obj = None
     if fr.track_float and st == "OPTIMAL":
         stf, _, zf, _ = solve_lp(c_red, A_red, b_red, minimize, float(lp_eps), max_iter, num=float)
